@@ -25,17 +25,25 @@ theorem mapM_safe {α β : Type} (f : α → Except Err β) : ∀ (l : List α),
       | error e => rw [hm] at hrest; exact hrest
       | ok bs => simp [Safe, pure, Except.pure]
 
-theorem parseFromModel_safe (blobs : List Bytes) (B : Nat) (hB : ∀ b ∈ blobs, b.length ≤ B) :
-    Safe (parseFromModel blobs (some B) Guards.all) :=
-  mapM_safe _ blobs (fun b hb => decode_safe_all b 0 B (hB b hb))
+theorem decodeFile_safe (bs : Bytes) (maxArraySize : Int) (B : Nat) (hB : bs.length ≤ B) (maxSeek : Nat) :
+    Safe (decodeFile bs maxArraySize (some B) Guards.all maxSeek) := by
+  unfold decodeFile
+  have hd := decode_safe_all bs maxArraySize B hB
+  cases h : decode bs maxArraySize (some B) Guards.all with
+  | error e => rw [h] at hd; exact hd
+  | ok d => simp only []; split <;> simp [Safe, isBad]
+
+theorem parseFromModel_safe (blobs : List Bytes) (B : Nat) (hB : ∀ b ∈ blobs, b.length ≤ B) (maxSeek : Nat) :
+    Safe (parseFromModel blobs (some B) Guards.all maxSeek) :=
+  mapM_safe _ blobs (fun b hb => decodeFile_safe b 0 B (hB b hb) maxSeek)
 
 /-- **create-from is safe on every installed model** -/
-theorem createFrom_safe (blobs : List Bytes) (B : Nat) (hB : ∀ b ∈ blobs, b.length ≤ B) :
-    Safe (createFrom blobs (some B) Guards.all) := by
+theorem createFrom_safe (blobs : List Bytes) (B : Nat) (hB : ∀ b ∈ blobs, b.length ≤ B) (maxSeek : Nat) :
+    Safe (createFrom blobs (some B) Guards.all maxSeek) := by
   unfold createFrom
-  have hp := parseFromModel_safe blobs B hB
+  have hp := parseFromModel_safe blobs B hB maxSeek
   simp only [bind, Except.bind]
-  cases h : parseFromModel blobs (some B) Guards.all with
+  cases h : parseFromModel blobs (some B) Guards.all maxSeek with
   | error e => rw [h] at hp; exact hp
   | ok ds =>
     simp only []
@@ -45,11 +53,11 @@ theorem createFrom_safe (blobs : List Bytes) (B : Nat) (hB : ∀ b ∈ blobs, b.
     | error e => rw [hm] at this; exact this
     | ok u => simp [Safe, pure, Except.pure]
 
-theorem capabilities_safe (blob : Bytes) (B : Nat) (hB : blob.length ≤ B) :
-    Safe (capabilities blob (some B) Guards.all) := by
+theorem capabilities_safe (blob : Bytes) (B : Nat) (hB : blob.length ≤ B) (maxSeek : Nat) :
+    Safe (capabilities blob (some B) Guards.all maxSeek) := by
   unfold capabilities
-  have hd := decode_safe_all blob 0 B hB
-  cases h : decode blob 0 (some B) Guards.all with
+  have hd := decodeFile_safe blob 0 B hB maxSeek
+  cases h : decodeFile blob 0 (some B) Guards.all maxSeek with
   | error e =>
     rw [h] at hd
     cases e with
@@ -66,17 +74,17 @@ theorem capabilities_safe (blob : Bytes) (B : Nat) (hB : blob.length ≤ B) :
     simp [Safe, bind, Except.bind, pure, Except.pure]
 
 /-- **show is safe on every installed blob**, verbose or not -/
-theorem showModel_safe (blob : Bytes) (verbose : Bool) (B : Nat) (hB : blob.length ≤ B) :
-    Safe (showModel blob verbose (some B) Guards.all) := by
+theorem showModel_safe (blob : Bytes) (verbose : Bool) (B : Nat) (hB : blob.length ≤ B) (maxSeek : Nat) :
+    Safe (showModel blob verbose (some B) Guards.all maxSeek) := by
   unfold showModel
-  have hc := capabilities_safe blob B hB
+  have hc := capabilities_safe blob B hB maxSeek
   simp only [bind, Except.bind]
-  cases h : capabilities blob (some B) Guards.all with
+  cases h : capabilities blob (some B) Guards.all maxSeek with
   | error e => rw [h] at hc; exact hc
   | ok cs =>
     simp only []
-    have hd := decode_safe_all blob (if verbose then -1 else 0) B hB
-    cases h2 : decode blob (if verbose then -1 else 0) (some B) Guards.all with
+    have hd := decodeFile_safe blob (if verbose then -1 else 0) B hB maxSeek
+    cases h2 : decodeFile blob (if verbose then -1 else 0) (some B) Guards.all maxSeek with
     | error e => rw [h2] at hd; exact hd
     | ok d => simp [Safe, pure, Except.pure]
 
